@@ -225,8 +225,11 @@ def make_constraint_fun(ctx0, j, spec, shared=False):
             ctx.fire("mutate-input")
         ctx.world.yield_point(ctx, "con.ret")
         if cbuf is not None:
-            cbuf[...] = vals
-            return cbuf
+            # one reused output buffer per *caller*: a function object shared by concurrent clients that handed
+            # every thread the same buffer would itself be racy user code, which is not what is being tested
+            b = cbuf if not shared else ctx.__dict__.setdefault("_cbuf%d" % j, np.zeros(len(comps)))
+            b[...] = vals
+            return b
         if ret in ("intlist", "intarray", "intscalar", "bool"):
             # integer-valued replies handed back as Python ints / an integer array / booleans when they are integral
             if all(math.isfinite(v) and float(v).is_integer() and abs(v) < 2 ** 52 for v in vals):
